@@ -88,6 +88,15 @@ func define(o *getoptions.GetOpt, d OptDef) {
 		o.Float64Slice(d.Name, d.Min, d.Max, fns...)
 	case 11:
 		o.StringMap(d.Name, d.Min, d.Max, fns...)
+	case 12: // the program's own map already holds entries when the option is declared
+		mv := map[string]string{"zeta": "26", "alpha": "1", "mid": "13", "beta": "2"}
+		o.StringMapVar(&mv, d.Name, d.Min, d.Max, fns...)
+	case 13:
+		sv := []string{"pre1", "pre2", "pre3"}
+		o.StringSliceVar(&sv, d.Name, d.Min, d.Max, fns...)
+	case 14:
+		var v string
+		o.StringVar(&v, d.Name, "vardef", fns...)
 	}
 }
 
@@ -116,8 +125,12 @@ func build(o *getoptions.GetOpt, c *CmdDef, path string, ran *string, nodes *[]n
 	if len(c.ArgComp) > 0 {
 		o.ArgCompletions(c.ArgComp...)
 	}
-	for _, s := range c.Synopsis {
-		o.HelpSynopsisArg(s, "about "+s)
+	for i, s := range c.Synopsis {
+		desc := "about " + s
+		if i == 0 {
+			desc = "about " + s + "\nsecond line of the description\nthird line"
+		}
+		o.HelpSynopsisArg(s, desc)
 	}
 	if c.Fn {
 		name := path
@@ -130,6 +143,9 @@ func build(o *getoptions.GetOpt, c *CmdDef, path string, ran *string, nodes *[]n
 	for i := range c.Subs {
 		s := &c.Subs[i]
 		build(o.NewCommand(s.Name, "about "+s.Name), s, path+"/"+s.Name, ran, nodes)
+	}
+	for _, d := range c.LateOpts {
+		define(o, d)
 	}
 }
 
@@ -238,7 +254,7 @@ func observeArgv(sc *Scenario, ord Order, st *obsStats, shared []string) (out st
 				fmt.Fprintf(&b, "%s.remaining=%q\n%s.error=%s\n%s.exit=%d\n%s.completions=%q\n", mode, rem, mode, errClass(err), mode, exit, mode, cw.String())
 				if mode == "parse" {
 					for _, n := range nodes {
-						for _, d := range n.def.Opts {
+						for _, d := range append(append([]OptDef(nil), n.def.Opts...), n.def.LateOpts...) {
 							fmt.Fprintf(&b, "value %s --%s=%v called=%v as=%q\n", n.path, d.Name, n.opt.Value(d.Name), n.opt.Called(d.Name), n.opt.CalledAs(d.Name))
 						}
 					}
@@ -247,7 +263,12 @@ func observeArgv(sc *Scenario, ord Order, st *obsStats, shared []string) (out st
 						fmt.Fprintf(&b, "dispatch.error=%s\ndispatch.ran=%s\n", errClass(derr), ran)
 					}
 					for _, n := range nodes {
-						fmt.Fprintf(&b, "help %s=%q\n", n.path, n.opt.Help())
+						h := n.opt.Help()
+						fmt.Fprintf(&b, "help %s=%q\n", n.path, h)
+						// the same definition object asked again must answer the same
+						if h2 := n.opt.Help(); h2 != h {
+							fmt.Fprintf(&b, "NONIDEMPOTENT help %s: second rendering differs: %s\n", n.path, firstDiff(h, h2))
+						}
 					}
 				}
 				fmt.Fprintf(&b, "%s.writer=%q\n", mode, w.String())
@@ -311,6 +332,15 @@ type disagreement struct {
 // check runs the scenario under k orders plus a repetition and returns the first disagreement.
 func check(sc *Scenario, seed uint64, k int, st *obsStats, nexec *int) *disagreement {
 	os := orders(seed, k)
+	if pre := observe(sc, os[0], nil); strings.Contains(pre, "\nNONIDEMPOTENT ") {
+		i := strings.Index(pre, "\nNONIDEMPOTENT ")
+		line := pre[i+1:]
+		if j := strings.Index(line, "\n"); j >= 0 {
+			line = line[:j]
+		}
+		*nexec++
+		return &disagreement{os[0], os[0], line, "idempotence"}
+	}
 	// the caller's argv slice: the first and the last execution pass the very same slice object
 	// (a program parsing os.Args twice); an implementation that scribbles on it has hidden state
 	callerArgv := append(make([]string, 0, len(sc.Argv)+4), sc.Argv...)
@@ -420,7 +450,26 @@ func clone(sc *Scenario) *Scenario {
 
 // differs reports whether sc still shows a disagreement: under the recorded pair, or under a small
 // set of orders (shuffle permutations shift when the number of MapKeys calls changes).
+func idempotenceLine(sc *Scenario, o Order) string {
+	pre := observe(sc, o, nil)
+	i := strings.Index(pre, "\nNONIDEMPOTENT ")
+	if i < 0 {
+		return ""
+	}
+	line := pre[i+1:]
+	if j := strings.Index(line, "\n"); j >= 0 {
+		line = line[:j]
+	}
+	return line
+}
+
 func differs(sc *Scenario, d *disagreement, seed uint64) *disagreement {
+	if d.kind == "idempotence" {
+		if l := idempotenceLine(sc, d.a); l != "" {
+			return &disagreement{d.a, d.a, l, "idempotence"}
+		}
+		return nil
+	}
 	if d.kind == "repeat" {
 		callerArgv := append(make([]string, 0, len(sc.Argv)+4), sc.Argv...)
 		a := observeArgv(sc, d.a, nil, callerArgv)
@@ -456,6 +505,12 @@ func shrinkCmd(c *CmdDef, emit func()) {
 		c.Opts = append(c.Opts[:i:i], c.Opts[i+1:]...)
 		emit()
 		c.Opts = saved
+	}
+	for i := len(c.LateOpts) - 1; i >= 0; i-- {
+		saved := append([]OptDef(nil), c.LateOpts...)
+		c.LateOpts = append(c.LateOpts[:i:i], c.LateOpts[i+1:]...)
+		emit()
+		c.LateOpts = saved
 	}
 	for i := range c.Opts {
 		o := &c.Opts[i]
@@ -830,6 +885,9 @@ func main() {
 			if md.kind == "repeat" {
 				rf.Message = fmt.Sprintf("same definition, input and iteration order (%s), different observable on repetition (hidden state): %s", md.a, md.diff)
 			}
+			if md.kind == "idempotence" {
+				rf.Message = "the same definition object gives a different text when asked twice: " + md.diff
+			}
 			// a replay file must reproduce in a FRESH process from the file alone
 			path := filepath.Join(*replayDir, fmt.Sprintf("C20-%d-%d.json", *seed, idx))
 			os.MkdirAll(*replayDir, 0o755)
@@ -903,6 +961,9 @@ func headLines(s string, n int) []string {
 
 // differsExact replays the recorded pair of orders; returns the first difference ("" = none).
 func differsExact(rf *ReplayFile) string {
+	if rf.Kind == "idempotence" {
+		return idempotenceLine(rf.Scenario, rf.OrderA)
+	}
 	callerArgv := append(make([]string, 0, len(rf.Scenario.Argv)+4), rf.Scenario.Argv...)
 	if rf.Kind != "repeat" {
 		callerArgv = nil
